@@ -28,7 +28,8 @@ def gen_spec(rng: random.Random, small=False) -> dict:
         "mort": {"mods": rng.randint(0, 2)} if rng.random() < 0.7 else None,
         "disease": ({"states": rng.randint(2, 4), "p": [rng.choice([0, 2, 5, 8, 16]) for _ in range(rng.randint(1, 3))],
                      "self": True, "back": rng.random() < 0.5} if rng.random() < 0.7 else None),
-        "stepmod": ({"every": rng.randint(1, 4), "mult": rng.randint(2, 4)} if (dt and rng.random() < 0.35) else None),
+        "stepmod": ({"every": rng.randint(1, 4), "mult": rng.randint(2, 4), "vary": rng.random() < 0.6}
+                    if (dt and rng.random() < 0.4) else None),
         "obs": ({"strats": rng.randint(0, 3), "when": rng.choice(["collect_metrics", "time_step", "time_step__prepare", "time_step__cleanup"]),
                  "concat": rng.random() < 0.5} if rng.random() < 0.7 else None),
         "order": [rng.randint(0, 4) for _ in range(rng.randint(0, 3))],
